@@ -392,6 +392,7 @@ func (i *interpreter) resetPerPath() {
 	i.depth = 0
 	i.noFork = false
 	i.monoClock = nil
+	i.condSignals = 0
 }
 
 // runInit executes the package initialiser of sp only (imported packages' initialisers are skipped
